@@ -21,7 +21,9 @@ RULE = (
     "variable names, free nonterminals (one and two, also next to explicit quantifiers), XPath child axis with and without index over "
     "alternatives with one / several candidate expansions (conjunction in universal, disjunction in existential context), indices 1..12 on "
     "a 12-child rule, descendant axis (directly under the binding quantifier, also with an explicit existential in between), prefix and "
-    "infix SMT notation, negative literals, implies / iff / xor; grammars assgn, list, pairs, row12; all closed trees up to a bound; a "
+    "infix SMT notation, negative literals, implies / iff / xor; unnamed quantifier with an XPath next to a free XPath of the same type (2 x 2 x 2 "
+    "x 2 x both orders); grammars assgn, list, pairs, row12 and the revisions assgn2, pairs2 (same nonterminal names, one more alternative); parse "
+    "histories: all texts parsed under one grammar, then the pairs of another judged in the same process (6 ordered grammar pairs); all closed trees up to a bound; a "
     "schema is (rule class, sub-class); non-trivial iff the core form is true on some tree and false on another"
 )
 ASSUMPTIONS = [
@@ -32,7 +34,10 @@ TASKS_PER_CHILD = 6
 
 ROW12 = {"<start>": ["<row>"], "<row>": ["<d>" * 12, "<d>"], "<d>": ["0", "7"]}
 PAIRS = {"<start>": ["<item>"], "<item>": ["<num>", "<pair>"], "<pair>": ["(<item>,<item>)"], "<num>": ["1", "2"]}
-GRAMS = {"assgn": GR.ASSGN, "list": GR.LIST, "pairs": PAIRS, "row12": ROW12}
+# revisions of two grammars: same nonterminal names, different alternatives (for the parse-history runs)
+ASSGN2 = dict(GR.ASSGN, **{"<assgn>": ["<var> := <rhs>", "<var> += <rhs>"]})
+PAIRS2 = dict(PAIRS, **{"<pair>": ["(<item>,<item>)", "[<item>]"]})
+GRAMS = {"assgn": GR.ASSGN, "list": GR.LIST, "pairs": PAIRS, "row12": ROW12, "assgn2": ASSGN2, "pairs2": PAIRS2}
 
 
 def q(k, T, v, m, inv, body):
@@ -149,6 +154,33 @@ def pairs(tier):
     #  introducing universal quantifiers" vs. "disjunction for existential formulas" - so only universal contexts are paired)
     add("combination", "noname+descendant+implies", A, '(forall <assgn>: <assgn>..<digit> = "1") implies (<var> = "x")',
         q("forall", "<var>", "v", None, "start", ("or", ("not", q("forall", "<assgn>", "a", None, "start", q("forall", "<digit>", "d", None, "a", eq("d", "1")))), var_x("v"))))
+    # an unnamed quantifier over <assgn> with an XPath in its body NEXT TO a free <assgn> XPath outside it (the free one is closed at the top)
+    inner = {"rhs-var": ('<assgn>.<rhs>.<var> = "x"', mx("<var>", " := ", ("<var>", "iv")), eq("iv", "x")), "var": ('<assgn>.<var> = "x"', mx(("<var>", "iv"), " := ", "<rhs>"), eq("iv", "x"))}
+    outer = {"var": ('<assgn>.<var> = "y"', mx(("<var>", "ov"), " := ", "<rhs>"), eq("ov", "y")), "rhs-digit": ('<assgn>.<rhs>.<digit> = "1"', mx("<var>", " := ", ("<digit>", "od")), eq("od", "1"))}
+    for kind, (ik, (isug, im, iat)), (ok, (osug, om, oat)), conn in itertools.product(("exists", "forall"), inner.items(), outer.items(), ("and", "or")):
+        # the documentation closes "the formula" over the free nonterminal; whether the universal quantifier is put around the whole
+        # formula or around the sub-formula that mentions the nonterminal is not spelled out, and the two differ when no <assgn> has the
+        # shape of the match expression: both readings are computed and trees on which they differ are not judged
+        inner_q = q(kind, "<assgn>", "i", im, "start", iat)
+        add("combination", f"noname-{kind}-xpath-{conn}-free-xpath-same-type", A, f"({kind} <assgn>: {isug}) {conn} {osug}",
+            ("readings", q("forall", "<assgn>", "o", om, "start", (conn, inner_q, oat)), (conn, inner_q, q("forall", "<assgn>", "o", om, "start", oat))))
+        add("combination", f"free-xpath-{conn}-noname-{kind}-xpath-same-type", A, f"{osug} {conn} ({kind} <assgn>: {isug})",
+            ("readings", q("forall", "<assgn>", "o", om, "start", (conn, oat, inner_q)), (conn, q("forall", "<assgn>", "o", om, "start", oat), inner_q)))
+    # the revised grammars: every alternative of the revised rule takes part in the translation
+    A2 = "assgn2"
+    m2 = lambda lhs, rhs: (mx(lhs, " := ", rhs), mx(lhs, " += ", rhs))
+    for nm, sugar, lhs, rhs, at_ in (("var", '<assgn>.<var> = "x"', ("<var>", "v"), "<rhs>", var_x("v")), ("rhs-var", '<assgn>.<rhs>.<var> = "x"', "<var>", ("<var>", "v"), var_x("v")),
+                                     ("rhs-digit", '<assgn>.<rhs>.<digit> = "1"', "<var>", ("<digit>", "v"), eq("v", "1"))):
+        ma, mb = m2(lhs, rhs)
+        add("grammar-revision", f"assgn2-universal-{nm}", A2, sugar, ("and", q("forall", "<assgn>", "a", ma, "start", at_), q("forall", "<assgn>", "b", mb, "start", at_)))
+        add("grammar-revision", f"assgn2-existential-{nm}", A2, "exists <assgn> a: a" + sugar[len("<assgn>"):], ("or", q("exists", "<assgn>", "a", ma, "start", at_), q("exists", "<assgn>", "b", mb, "start", at_)))
+    P2 = "pairs2"
+    mp = mx("(", ("<item>", "it"), ",", "<item>", ")")
+    mq = mx("[", ("<item>", "jt"), "]")
+    add("grammar-revision", "pairs2-universal", P2, '<pair>.<item> = "1"', ("and", q("forall", "<pair>", "p", mp, "start", eq("it", "1")), q("forall", "<pair>", "p2", mq, "start", eq("jt", "1"))))
+    add("grammar-revision", "pairs2-existential", P2, 'exists <pair> p: p.<item> = "2"', ("or", q("exists", "<pair>", "p", mp, "start", eq("it", "2")), q("exists", "<pair>", "p2", mq, "start", eq("jt", "2"))))
+    add("grammar-revision", "pairs2-index-2", P2, '<pair>.<item>[2] = "1"', q("forall", "<pair>", "p", mx("(", "<item>", ",", ("<item>", "it"), ")"), "start", eq("it", "1")))
+    add("grammar-revision", "pairs-after-pairs2", "pairs", '<pair>.<item> = "1"', q("forall", "<pair>", "p", mp, "start", eq("it", "1")))
     return P
 
 
@@ -158,13 +190,45 @@ def _trees(name, tier):
         return common.trees_of(name, "quick")
     if name == "pairs":
         return closed_trees(cg, "<start>", 7, max_nodes=30)
+    if name in ("assgn2", "pairs2"):
+        ts = closed_trees(cg, "<start>", 6 if name == "assgn2" else 7, max_nodes=20 if name == "assgn2" else 24)
+        return ts[:: max(1, len(ts) // 300)] if tier == "quick" else ts
     ts = closed_trees(cg, "<start>", 3)
     return ts[:: max(1, len(ts) // (150 if tier == "quick" else 1200))]
 
 
+HISTORIES = [("assgn", "assgn2"), ("assgn2", "assgn"), ("pairs", "pairs2"), ("pairs2", "pairs"), ("assgn", "assgn"), ("list", "assgn2")]
+
+
 def chunks(tier, seed):
     P = pairs(tier)
-    return [dict(lo=i, hi=min(len(P), i + 3), tier=tier) for i in range(0, len(P), 3)]
+    return [dict(lo=i, hi=min(len(P), i + 3), tier=tier) for i in range(0, len(P), 3)] + [dict(history=list(h), tier=tier) for h in HISTORIES]
+
+
+def history_chunk(r, first, second, tier):
+    """parse history: every sugared text of both grammars is parsed under grammar `first`, THEN the pairs of grammar `second` are judged in
+    the same process - the translation may depend on the grammar passed to parse_isla only, not on what was parsed before"""
+    P = pairs(tier)
+    sugars = [p for p in P if p[2] in (first, second) and p[0].startswith(("xpath", "grammar-revision", "free", "combination", "no-name"))]
+    n = 0
+    for cls, sub, gname, sugar, core in sugars:
+        try:
+            with time_cap(60):
+                common.parse(sugar, GRAMS[first])
+            n += 1
+        except BaseException:  # noqa
+            pass  # a text of the other revision may not be a constraint over this one
+    r.extra[f"history:{first}->{second}:parsed-first"] += n
+    cg = canon(GRAMS[second])
+    trees = [(with_ids(t), to_dt(with_ids(t)), sem.Ctx(cg, with_ids(t))) for t in _trees(second, tier)]
+    for cls, sub, gname, sugar, core in sugars:
+        if gname == second:
+            before = len(r.viols)
+            check_pair(r, cls, sub, gname, sugar, core, trees, cg)
+            for v in r.viols[before:]:
+                v["case"]["history"] = [first, second]
+                v["what"] += f" [after parsing all texts under grammar {first}]"
+    r.sample({"history": [first, second], "texts parsed first": n})
 
 
 def check_pair(r, cls, sub, gname, sugar, core, trees, cg):
@@ -183,11 +247,15 @@ def check_pair(r, cls, sub, gname, sugar, core, trees, cg):
         r.evals += 1
         r.viol(f"sugar-rejected/{cls}/{sub}", f"documented sugar {sugar!r} is rejected by parse_isla: {type(e).__name__}: {str(e)[:120]}", case, "accepted", type(e).__name__)
         return
+    readings = core[1:] if core[0] == "readings" else (core,)
+    core = readings[0]
     for root, dt, ctx in trees:
-        exp = sem.sat_ctx(ctx, core)
+        exps = [sem.sat_ctx(ctx, c) for c in readings]
+        exp = exps[0]
         r.evals += 1
         r.transitions += 1
-        if exp is sem.EITHER:
+        if exp is sem.EITHER or any(e != exp for e in exps):
+            r.outcomes["tree-not-judged:readings-differ-or-either"] += 1
             continue
         r.verdict((cls, sub), exp)
         try:
@@ -202,6 +270,9 @@ def check_pair(r, cls, sub, gname, sugar, core, trees, cg):
 def run_chunk(chunk):
     r = Result()
     tier = chunk["tier"]
+    if "history" in chunk:
+        history_chunk(r, chunk["history"][0], chunk["history"][1], tier)
+        return r
     cache = {}
     for cls, sub, gname, sugar, core in pairs(tier)[chunk["lo"]:chunk["hi"]]:
         if gname not in cache:
@@ -209,12 +280,15 @@ def run_chunk(chunk):
             cache[gname] = ([(with_ids(t), to_dt(with_ids(t)), sem.Ctx(cg, with_ids(t))) for t in _trees(gname, tier)], cg)
         trees, cg = cache[gname]
         check_pair(r, cls, sub, gname, sugar, core, trees, cg)
-        r.sample({"rule": cls, "sugar": sugar, "core": sem.to_isla(core), "trees": len(trees)}, limit=2)
+        r.sample({"rule": cls, "sugar": sugar, "core": sem.to_isla(core[1] if core[0] == "readings" else core), "trees": len(trees)}, limit=2)
     return r
 
 
 def replay(case):
     r = Result(keep_all=True)
+    if case.get("history"):
+        history_chunk(r, case["history"][0], case["history"][1], "quick")
+        return [v for v in r.viols if v["case"]["sugar"] == case["sugar"]]
     for cls, sub, gname, sugar, core in pairs("quick"):
         if sugar == case["sugar"] and gname == case["g"]:
             cg = canon(GRAMS[gname])
